@@ -1170,3 +1170,138 @@ Proof.
   - destruct G3 as [E|(i & j & Hi & Hj & Hne & E)]; [left; auto|].
     right. exists i, j. apply in_seq in Hi. repeat split; auto; lia.
 Qed.
+
+(* ------------------------------------------------------------------ *)
+(* TRANSITIVE_CLOSURE: the in-place loops compute the functional form   *)
+(* ------------------------------------------------------------------ *)
+Section Closure.
+Variable objs : list oref.
+Variable nb : nat.
+Let sw (k : nat) : bool := is_nvswitch (nth k objs None).
+Definition cell (v : list N) (a b : nat) : N := vget v (a * nb + b).
+Definition min_sw (sw2j i2sw : N) : N := if (sw2j <? i2sw)%N then sw2j else i2sw.
+
+(* cells in a switch row or a switch column: read by the loops, never written *)
+Definition frozen (v0 v : list N) : Prop :=
+  forall a b, (a < nb)%nat -> (b < nb)%nat -> sw a = true \/ sw b = true -> cell v a b = cell v0 a b.
+
+Lemma fold_left_ext_in {A B} (f g : A -> B -> A) l : (forall x, In x l -> forall a, f a x = g a x) ->
+  forall a, fold_left f l a = fold_left g l a.
+Proof.
+  induction l as [|x l IH]; intros H a; simpl; auto.
+  rewrite H by (simpl; auto). apply IH. intros; apply H; simpl; auto.
+Qed.
+
+Lemma bw_sum_col_frozen v0 v j : (j < nb)%nat -> frozen v0 v -> bw_sum_col objs nb j v = bw_sum_col objs nb j v0.
+Proof.
+  intros Hj Hf. unfold bw_sum_col. apply fold_left_ext_in. intros k Hk acc. apply in_seq in Hk.
+  fold (sw k). destruct (sw k) eqn:E; auto. f_equal. apply (Hf k j); auto; lia.
+Qed.
+
+Lemma bw_sum_row_frozen v0 v i : (i < nb)%nat -> frozen v0 v -> bw_sum_row objs nb i v = bw_sum_row objs nb i v0.
+Proof.
+  intros Hi Hf. unfold bw_sum_row. apply fold_left_ext_in. intros k Hk acc. apply in_seq in Hk.
+  fold (sw k). destruct (sw k) eqn:E; auto. f_equal. apply (Hf i k); auto; lia.
+Qed.
+
+Lemma closure_j_spec v0 i bw : (i < nb)%nat -> sw i = false ->
+  forall js v, NoDup js -> (forall j, In j js -> (j < nb)%nat) -> length v = (nb * nb)%nat -> frozen v0 v ->
+  let r := closure_j js objs nb i bw v in
+  length r = (nb * nb)%nat /\ frozen v0 r /\
+  (forall b, In b js -> b <> i -> sw b = false -> cell r i b = add64 (cell v i b) (min_sw (bw_sum_col objs nb b v0) bw)) /\
+  (forall a b, (a < nb)%nat -> (b < nb)%nat -> ~ (a = i /\ In b js /\ b <> i /\ sw b = false) -> cell r a b = cell v a b).
+Proof.
+  intros Hi Hswi. induction js as [|j js IH]; intros v Hnd Hjs Hl Hf; simpl.
+  - repeat split; auto. intros b [].
+  - inversion Hnd as [|? ? Hnin Hnd']; subst.
+    assert (Hj : (j < nb)%nat) by (apply Hjs; simpl; auto).
+    assert (Hjs' : forall j', In j' js -> (j' < nb)%nat) by (intros; apply Hjs; simpl; auto).
+    fold (sw j).
+    destruct (Nat.eqb_spec i j) as [Eij|Nij]; [|destruct (sw j) eqn:Esj]; simpl.
+    + subst j. destruct (IH v Hnd' Hjs' Hl Hf) as (R1 & R2 & R3 & R4). repeat split; auto.
+      * intros b [<-|Hb] Hne Hs; [congruence|auto].
+      * intros a b Ha Hb Hn. apply R4; auto. intros (H1 & H2 & H3 & H4). apply Hn. simpl. tauto.
+    + destruct (IH v Hnd' Hjs' Hl Hf) as (R1 & R2 & R3 & R4). repeat split; auto.
+      * intros b [<-|Hb] Hne Hs; [congruence|auto].
+      * intros a b Ha Hb Hn. apply R4; auto. intros (H1 & H2 & H3 & H4). apply Hn. simpl. tauto.
+    + set (v' := upd v (i * nb + j) (add64 (vget v (i * nb + j))
+                   (if (bw_sum_col objs nb j v <? bw)%N then bw_sum_col objs nb j v else bw))).
+      assert (Hl' : length v' = (nb * nb)%nat) by (unfold v'; rewrite upd_length; auto).
+      assert (Hother : forall a b, (b < nb)%nat -> ~ (a = i /\ b = j) -> cell v' a b = cell v a b).
+      { intros a b Hb Hn. unfold cell, vget, v'. apply nth_upd_other. intros E. apply cell_inj in E; auto. destruct E; auto. }
+      assert (Hf' : frozen v0 v').
+      { intros a b Ha Hb Hs. rewrite Hother; auto. intros (-> & ->). destruct Hs; congruence. }
+      destruct (IH v' Hnd' Hjs' Hl' Hf') as (R1 & R2 & R3 & R4). repeat split; auto.
+      * intros b [<-|Hb] Hne Hs.
+        -- rewrite R4; auto; [|intros (_ & H & _); auto].
+           unfold cell at 1, vget, v'. rewrite nth_upd_same by (rewrite Hl; nia).
+           rewrite (bw_sum_col_frozen v0 v j Hj Hf). reflexivity.
+        -- rewrite R3; auto. rewrite Hother; auto. intros (_ & ->). auto.
+      * intros a b Ha Hb Hn. rewrite R4; auto.
+        -- apply Hother; auto. intros (-> & ->). apply Hn. simpl. auto.
+        -- intros (H1 & H2 & H3 & H4). apply Hn. simpl. tauto.
+Qed.
+
+(* the value the code adds between two distinct non-switch objects *)
+Definition closure_cell (v0 : list N) (a b : nat) : N :=
+  add64 (cell v0 a b) (min_sw (bw_sum_col objs nb b v0) (bw_sum_row objs nb a v0)).
+
+Lemma closure_i_spec v0 :
+  forall is v, NoDup is -> (forall i, In i is -> (i < nb)%nat) -> length v = (nb * nb)%nat -> frozen v0 v ->
+  (forall a b, In a is -> (b < nb)%nat -> cell v a b = cell v0 a b) ->
+  let r := closure_i is objs nb v in
+  length r = (nb * nb)%nat /\ frozen v0 r /\
+  (forall a b, In a is -> (b < nb)%nat -> a <> b -> sw a = false -> sw b = false -> cell r a b = closure_cell v0 a b) /\
+  (forall a b, (a < nb)%nat -> (b < nb)%nat -> ~ (In a is /\ a <> b /\ sw a = false /\ sw b = false) -> cell r a b = cell v a b).
+Proof.
+  induction is as [|i is IH]; intros v Hnd His Hl Hf Horig; simpl.
+  - repeat split; auto. intros a b [].
+  - inversion Hnd as [|? ? Hnin Hnd']; subst.
+    assert (Hi : (i < nb)%nat) by (apply His; simpl; auto).
+    assert (His' : forall i', In i' is -> (i' < nb)%nat) by (intros; apply His; simpl; auto).
+    fold (sw i). destruct (sw i) eqn:Esi.
+    + destruct (IH v Hnd' His' Hl Hf) as (R1 & R2 & R3 & R4); [intros; apply Horig; simpl; auto|].
+      repeat split; auto.
+      * intros a b [<-|Ha] Hb Hne Hsa Hsb; [congruence|auto].
+      * intros a b Ha Hb Hn. apply R4; auto. intros (H1 & H2). apply Hn. simpl. tauto.
+    + assert (Hseq : NoDup (seq 0 nb)) by apply seq_NoDup.
+      assert (Hsb : forall j, In j (seq 0 nb) -> (j < nb)%nat) by (intros j Hj; apply in_seq in Hj; lia).
+      destruct (closure_j_spec v0 i (bw_sum_row objs nb i v) Hi Esi (seq 0 nb) v Hseq Hsb Hl Hf) as (J1 & J2 & J3 & J4).
+      set (v' := closure_j (seq 0 nb) objs nb i (bw_sum_row objs nb i v) v) in *.
+      assert (Horig' : forall a b, In a is -> (b < nb)%nat -> cell v' a b = cell v0 a b).
+      { intros a b Ha Hb. rewrite J4; auto; [apply Horig; simpl; auto|].
+        intros (-> & _). auto. }
+      destruct (IH v' Hnd' His' J1 J2 Horig') as (R1 & R2 & R3 & R4). repeat split; auto.
+      * intros a b [<-|Ha] Hb Hne Hsa Hsb'.
+        -- rewrite R4; auto; [|intros (H & _); auto].
+           rewrite J3; auto; [|apply in_seq; lia].
+           unfold closure_cell. rewrite (bw_sum_row_frozen v0 v i Hi Hf).
+           rewrite (Horig i b); simpl; auto.
+        -- apply R3; auto.
+      * intros a b Ha Hb Hn. rewrite R4; auto.
+        -- apply J4; auto. intros (-> & _ & H3 & H4). apply Hn. simpl.
+           destruct (sw i) eqn:E; [discriminate|]. auto.
+        -- intros (H1 & H2). apply Hn. simpl. tauto.
+Qed.
+
+(* hwloc__distances_transform_transitive_closure: every cell *)
+Lemma closure_spec v0 : length v0 = (nb * nb)%nat ->
+  let r := closure_i (seq 0 nb) objs nb v0 in
+  length r = (nb * nb)%nat /\
+  forall a b, (a < nb)%nat -> (b < nb)%nat ->
+    cell r a b = if negb (a =? b)%nat && negb (sw a) && negb (sw b) then closure_cell v0 a b else cell v0 a b.
+Proof.
+  intros Hl r.
+  destruct (closure_i_spec v0 (seq 0 nb) v0 (seq_NoDup nb 0)) as (R1 & R2 & R3 & R4); auto.
+  { intros i Hi. apply in_seq in Hi. lia. }
+  { intros a b Ha Hb Hs. reflexivity. }
+  split; auto. intros a b Ha Hb.
+  destruct (Nat.eqb_spec a b) as [E|E]; simpl.
+  - apply R4; auto. intros (_ & H & _). auto.
+  - destruct (sw a) eqn:Ea; simpl.
+    + apply R4; auto. intros (_ & _ & H & _). congruence.
+    + destruct (sw b) eqn:Eb; simpl.
+      * apply R4; auto. intros (_ & _ & _ & H). congruence.
+      * apply R3; auto. apply in_seq. lia.
+Qed.
+End Closure.
